@@ -1407,7 +1407,7 @@ func noRendererRuns(out *scenOut, cause string) {
 		run.p.Send(tea.Interrupt())
 		want = "interrupted"
 	case "kill":
-		run.p.Kill()
+		go run.p.Kill()
 	case "ctx":
 		cancel()
 	case "panic-update":
@@ -1419,7 +1419,7 @@ func noRendererRuns(out *scenOut, cause string) {
 	out.record("no-renderer/"+cause, desc)
 	if !run.wait(4 * time.Second) {
 		out.fail(finding{Property: "C04", Class: "new", What: "Run does not return (program without a renderer)", Input: desc, Observed: goroutineDump()})
-		run.p.Kill()
+		go run.p.Kill()
 		return
 	}
 	if cause == "readerr" && errors.Is(run.err, errInjectedRead) {
@@ -1496,7 +1496,7 @@ func noRendererStalledOutput(out *scenOut, cause string) {
 	go func() { p.Run(); close(done) }()
 	desc := "WithoutRenderer, output stalled for ever; Println / Printf while running, three callers parked in them while Update holds the loop, then " + cause + "; then calls after the end"
 	if !waitFor(3*time.Second, func() bool { return ctl.log.has("view-exit", "") }) {
-		p.Kill()
+		go p.Kill()
 		return
 	}
 	out.record("no-renderer-stalled-output/"+cause, desc)
@@ -1521,7 +1521,7 @@ func noRendererStalledOutput(out *scenOut, cause string) {
 	}
 	time.Sleep(30 * time.Millisecond)
 	if cause == "kill" {
-		p.Kill()
+		go p.Kill()
 		close(hold)
 	} else {
 		close(hold)
@@ -1531,7 +1531,7 @@ func noRendererStalledOutput(out *scenOut, cause string) {
 	case <-done:
 	case <-time.After(4 * time.Second):
 		out.fail(finding{Property: "C04", Class: "new", What: "Run does not return (program without a renderer, stalled output)", Input: desc, Observed: goroutineDump()})
-		p.Kill()
+		go p.Kill()
 		return
 	}
 	start("println@after", func() { p.Println("d") })
@@ -1597,7 +1597,7 @@ func endWithManyBlockedCommands(out *scenOut, cause string, n int) {
 	if !run.wait(4 * time.Second) {
 		out.fail(finding{Property: "C04", Class: "new", What: "Run does not return although it was asked to end (many commands that never return are in flight)", Input: desc,
 			Expected: "Run returns " + want, Observed: fmt.Sprintf("still running after 4 s; %d of %d commands had been started", atomic.LoadInt32(&started), n)})
-		run.p.Kill()
+		go run.p.Kill()
 		run.wait(3 * time.Second)
 		return
 	}
@@ -1649,6 +1649,6 @@ func sendLongBeforeRun(out *scenOut) {
 	select {
 	case <-done:
 	case <-time.After(3 * time.Second):
-		p.Kill()
+		go p.Kill()
 	}
 }
